@@ -383,7 +383,23 @@ fn hist_next(e: &mut Trio, rng: &mut Rng, step: u64) -> Option<String> {
             };
             format!("{} withdraw {amt}", pre(u))
         }
-        74..=78 => format!("{h} {t} {} collect", rng.below(6)),
+        74..=78 => {
+            // now and then with coins attached all the same (users 0..3 hold the pool's native assets)
+            let nat: Vec<usize> = (0..3).filter(|i| v.native[*i]).collect();
+            if !nat.is_empty() && rng.chance(1, 4) {
+                let i = *rng.pick(&nat);
+                let who = rng.below(4) as usize;
+                let amt = match rng.below(4) {
+                    0 => 1,
+                    1 => 1001,
+                    2 => v.users[who][i].saturating_add(1),
+                    _ => sized(rng, v.r[i], v.users[who][i]).max(1),
+                };
+                format!("{h} {t} {who} fund {i} {amt} collect")
+            } else {
+                format!("{h} {t} {} collect", rng.below(6))
+            }
+        }
         79..=90 => {
             // amplification ramp around the rule's edges
             let cur = {
